@@ -429,6 +429,48 @@ func c01Run(c *Ctx) {
 		}
 		c01Judge(c, cs)
 	}
+	// 9b. every ordered pair and triple-with-repeat of operators over small operand grids, written bare and
+	// written with the parentheses the ladder implies: both must print the same (values chosen so that the
+	// possible groupings, and short-circuit decisions, usually differ)
+	{
+		ops2 := append([]string{K["or"], K["and"]}, c01BinOps...)
+		grids := [][]string{{"0", "1", "2", "3"}, {"2", "1", "0", "5"}, {"1", "0", "3", "0"}, {"3", "2", "0", "1"}, {False(), True(), "nil", "7"}, {`""`, "4", "0", `"s"`}}
+		full := func(text string) (string, bool) {
+			toks, lerr := ref.Lex([]rune(text))
+			if len(lerr) > 0 {
+				return "", false
+			}
+			prog, perr := ref.NewParser(toks).ParseProgram()
+			if perr != nil {
+				return "", false
+			}
+			return ref.PrintOpts{Full: true}.Program(prog), true
+		}
+		k := 0
+		for _, o1 := range ops2 {
+			for _, o2 := range ops2 {
+				for gi, g := range grids {
+					k++
+					texts := []string{Print(g[0] + " " + o1 + " " + g[1] + " " + o2 + " " + g[2])}
+					if gi < 3 {
+						texts = append(texts, Print(g[0]+" "+o1+" "+g[1]+" "+o2+" "+g[2]+" "+o1+" "+g[3]))
+					}
+					for _, t := range texts {
+						if !c.Mine() {
+							continue
+						}
+						if f, ok := full(t + "\n"); ok {
+							cs := &Case{Gen: "paren-print-equivalence", Src: t + "\n", Alt: []string{f}}
+							if k%25 == 0 {
+								cs.Mode = "cli"
+							}
+							c01Judge(c, cs)
+						}
+					}
+				}
+			}
+		}
+	}
 	// 10. the same for whole programs: the hand-written scoping / call programs and generated programs,
 	// each against the text with every composite sub-expression parenthesised as the ladder groups it,
 	// and with every atom parenthesised as well (callee, operand, index, condition positions)
